@@ -55,6 +55,25 @@ def fresh_kripke(h0, h1, k):
                   z3.ForAll([s], z3.Implies(V(h1, k)[s], lref(h1, k, s) >= h0.alloc)))
 
 
+def is_label_set(h, k, r):
+    s = X('s')
+    return z3.Exists([s], z3.And(V(h, k)[s], lref(h, k, s) == r))
+
+
+def structure_kept(h0, h1, k):
+    """same states, transitions and initial states; same label-set objects (their contents may grow)"""
+    s, d = X('s'), X('d')
+    return [('wf', wfK(h1, k)),
+            ('same_states', z3.ForAll([s], V(h1, k)[s] == V(h0, k)[s])),
+            ('same_transitions', hp.FA([s, d], edge(h1, k, s, d) == edge(h0, k, s, d), [])),
+            ('same_label_objects', z3.ForAll([s], z3.Implies(V(h0, k)[s], lref(h1, k, s) == lref(h0, k, s))))]
+
+
+def labels_frame_of(h0, h1, k):
+    """everything allocated before is unchanged except the CONTENTS of the label sets of structure k"""
+    return frame(h0, h1, h0.alloc, {'sets': lambda r: is_label_set(h0, k, r)})
+
+
 def anyview(sv, h):
     """(isdict, dom, val, ok) of the labelling argument in its current form"""
     if sv.ty == 'opt':
@@ -325,3 +344,91 @@ def install(E):
                'cuts': {'raises:RuntimeError:only_if': [sub_cut_edges, sub_cut_states],
                         'raises:RuntimeError:if': [sub_cut_retained_are_given, sub_cut_E_is_induced]}},
  touches={'dd', 'dv', 'sets', 'fld__next', 'fld__labels', 'fld_S0'}, owner='C14'))
+
+    # -- fairness (C15: "no call raises an internal error or modifies K"; C07 with fairness) ---------------
+    # FRAME and SAFETY only: what get_fair_states returns is wrong on the pinned tree (KF-C15-1) and is
+    # decided by the bounded check against its defect model; nothing functional is stated here.
+    def fairsets_valid(c):
+        r = z3.Int('r!fs')
+        return ('constraints_are_sets', z3.ForAll([r], z3.Implies(c.F.x.mem[r], z3.And(r >= 0, r < c.h0.alloc))))
+
+    def isfair_req(c):
+        x = X()
+        S = c.h0.set_of(c.scc.t)
+        return [('wf', wfG(c.h0, c.self.t)), fairsets_valid(c),
+                ('component_valid', z3.And(c.scc.t >= 0, c.scc.t < c.h0.alloc)),
+                ('component_nonempty', hp.nonempty(S)),
+                ('component_within_states', z3.ForAll([x], z3.Implies(S[x], V(c.h0, c.self.t)[x])))]
+
+    def isfair_l1(lc):
+        c, h = lc.c, lc.h
+        return [('alloc', h.alloc >= lc.h_entry.alloc)] + frame(c.h0, h, c.h0.alloc)
+
+    reg(Contract(
+        'Kripke.get_fair_states.<locals>.is_a_fair_SCC', 'kripke', [('self', 'kripke'), ('scc', 'dlist'), ('F', 'iterRefSets')], ret='bool',
+        requires=isfair_req, ensures=lambda c: [], loops={1: isfair_l1}, loop_touches={1: {'sets'}}, touches={'sets'}, owner='C15',
+        note='frame and safety only'))
+
+    def gfs_scc_hint(cc, c, path):
+        cc.sk['scc'] = c
+        return []
+
+    def gfs_ens(c):
+        x = X()
+        R = c.h1.set_of(c.res.t)
+        return [('only_states', z3.ForAll([x], z3.Implies(R[x], V(c.h0, c.self.t)[x]))),
+                ('fresh', z3.And(c.res.t >= c.h0.alloc, c.res.t < c.h1.alloc))]
+
+    def gfs_l1(lc):
+        c, h, he = lc.c, lc.h, lc.h_entry
+        scc = c.sk['scc']
+        hS, yR = scc.h1, scc.yR
+        A = lc.env['F_set'].t
+        x = X()
+        r = z3.Int('r!gf')
+        return [('acc_is_new', z3.And(A >= c.h0.alloc, A < scc.h0.alloc)),
+                ('acc_within_states', z3.ForAll([x], z3.Implies(h.set_of(A)[x], V(c.h0, c.self.t)[x]))),
+                ('components_unchanged', z3.ForAll([r], z3.Implies(yR[r], h.set_of(r) == hS.set_of(r)))),
+                ('alloc', h.alloc >= he.alloc)] \
+            + frame(c.h0, h, c.h0.alloc) \
+            + [('since_loop:' + n_, f_) for n_, f_ in frame(he, h, he.alloc, {'sets': lambda q: q == A})]
+
+    reg(Contract(
+        'Kripke.get_fair_states', 'kripke', [('self', 'kripke'), ('F', 'iterRefSets')], ret='set',
+        requires=lambda c: [('wf', wfK(c.h0, c.self.t)), fairsets_valid(c)], ensures=gfs_ens,
+        loops={1: gfs_l1}, loop_touches={1: {'sets'}}, touches={'sets', 'dd', 'dv', 'fld__next'},
+        hints={'call': {'compute_SCCs': gfs_scc_hint}}, owner='C15',
+        note='frame and safety only (result: a new set of states); the set itself is wrong on the pinned tree, KF-C15-1'))
+
+    def lfs_frame(c):
+        return labels_frame_of(c.h0, c.h1, c.self.t)
+
+    def lfs_may_write(c, comp, ref):
+        if comp == 'sets':
+            return is_label_set(c.h0, c.self.t, ref)
+        return None
+
+    def lfs_l1(lc):
+        # while f_label in labels: ...
+        c, h, he = lc.c, lc.h, lc.h_entry
+        return [('alloc', h.alloc >= he.alloc)] + structure_kept(c.h0, h, c.self.t) \
+            + [('since_entry:' + n_, f_) for n_, f_ in labels_frame_of(c.h0, h, c.self.t)]
+
+    def lfs_l2(lc):
+        # for s in self.get_fair_states(F): self._labels[s].add(f_label)
+        c, h, he = lc.c, lc.h, lc.h_entry
+        k = c.self.t
+        s = X('s')
+        return [('iterated_set_is_new', z3.And(lc.coll.src[1] >= c.h0.alloc, lc.coll.src[1] < he.alloc)),
+                ('iterated_are_states', z3.ForAll([s], z3.Implies(lc.coll.mem[s], V(c.h0, k)[s]))),
+                ('alloc', h.alloc >= he.alloc)] + structure_kept(c.h0, h, k) \
+            + [('since_entry:' + n_, f_) for n_, f_ in labels_frame_of(c.h0, h, k)] \
+            + [('since_loop:' + n_, f_) for n_, f_ in frame(he, h, he.alloc, {'sets': lambda r: is_label_set(c.h0, k, r)})]
+
+    reg(Contract(
+        'Kripke.label_fair_states', 'kripke', [('self', 'kripke'), ('F', 'iterRefSets')], ret='H',
+        requires=lambda c: [('wf', wfK(c.h0, c.self.t)), ('no_None_state', z3.Not(V(c.h0, c.self.t)[hp.NONE_H])), fairsets_valid(c)],
+        ensures=lambda c: structure_kept(c.h0, c.h1, c.self.t), frame=lfs_frame, may_write=lfs_may_write,
+        loops={1: lfs_l1, 2: lfs_l2}, loop_touches={1: set(), 2: {'sets'}}, touches={'sets', 'dd', 'dv', 'fld__next'},
+        hints={'format_is_H': True}, owner='C15',
+        note='frame and safety only: writes go to the CONTENTS of the label sets of self; termination of the renaming loop not claimed'))
